@@ -2,6 +2,7 @@ import BFL.Driver.Proto
 import BFL.Core.GaussJordan
 import BFL.Model.KF
 import BFL.Model.UT
+import BFL.Driver.UTStore
 /-
 Driver entries for the unscented transform and the unscented Kalman steps (C03, C04),
 executed exactly over `Rat` (linear / noise layouts).
@@ -300,6 +301,6 @@ def handle (op : String) (args : List String) : Option String :=
   | "uukfc" => some ((run uukfc args).getD "bad-args")
   | "spl" => some ((run spl args).getD "bad-args")
   | "utl" => some ((run utl args).getD "bad-args")
-  | _ => none
+  | _ => BFL.DriverUTStore.handle op args
 
 end BFL.DriverUT
